@@ -143,5 +143,6 @@ PROPS = {
              "method, executed by a debug-assertions+overflow-checks build and by a build without either; valid workload "
              "compared event by event between the two builds",
              phases=[{"gen": "C17", "runs": [("checked", "both"), ("fast", "both")], "validate": [(0, 1), (1, None)]}],
-             profiles=["checked", "fast"], count_all=True),
+             profiles=["checked", "fast"], count_all=True,
+             hunt=True, hunt_profile="fast", hunt_runs=[("checked", "both"), ("fast", "both")], hunt_validate=[(0, 1), (1, None)]),
 }
